@@ -380,14 +380,44 @@ func ruleC03OlderFirst(r *Run, p *Program, rule string) {
 		return
 	}
 	r.fn(funcKey(f))
-	// the ordering source
-	var order *ssa.Call
+	// the ordering source: the result of segmentsBySequenceID(), called here or passed in by every caller
+	var order ssa.Value
 	instrsOf(f, func(in ssa.Instruction) {
 		if c, ok := in.(*ssa.Call); ok && calleeKey(&c.Call) == "(*pogreb.datalog).segmentsBySequenceID" {
 			order = c
 		}
 	})
-	if !r.anchor(rule, "segmentsBySequenceID call in pickForCompaction", order != nil) {
+	if order == nil {
+		for i, pa := range f.Params {
+			sl, ok := pa.Type().Underlying().(*types.Slice)
+			if !ok || typeName(derefType(sl.Elem())) != "pogreb.segment" {
+				continue
+			}
+			okAll, n := true, 0
+			for _, c := range staticCallersOf(p, f) {
+				instrsOf(c, func(in ssa.Instruction) {
+					ci, ok := in.(ssa.CallInstruction)
+					if !ok || ci.Common().StaticCallee() != f || i >= len(ci.Common().Args) {
+						return
+					}
+					n++
+					from := false
+					for _, s := range sources(ci.Common().Args[i]) {
+						if cc, ok := s.(*ssa.Call); ok && calleeKey(&cc.Call) == "(*pogreb.datalog).segmentsBySequenceID" {
+							from = true
+						}
+					}
+					if !from {
+						okAll = false
+					}
+				})
+			}
+			if okAll && n > 0 {
+				order = pa
+			}
+		}
+	}
+	if !r.anchor(rule, "segmentsBySequenceID() as the ordering pickForCompaction works on", order != nil) {
 		return
 	}
 	// branch on DeleteRecords > 0
@@ -420,7 +450,7 @@ func ruleC03OlderFirst(r *Run, p *Program, rule string) {
 		desc := "unrecognised construction"
 		if c, ok := strip(ret.Results[0]).(*ssa.Call); ok {
 			if b, ok := c.Call.Value.(*ssa.Builtin); ok && b.Name() == "append" && len(c.Call.Args) == 2 {
-				if sl, ok := strip(c.Call.Args[0]).(*ssa.Slice); ok && sl.Low == nil && strip(sl.X) == ssa.Value(order) && sl.High != nil {
+				if sl, ok := strip(c.Call.Args[0]).(*ssa.Slice); ok && sl.Low == nil && strip(sl.X) == order && sl.High != nil {
 					// high bound must be loop index + 1
 					if bo, ok := sl.High.(*ssa.BinOp); ok && bo.Op == token.ADD {
 						if k, ok := constInt(bo.Y); ok && k == 1 {
@@ -593,7 +623,7 @@ func ruleC03OlderFirst(r *Run, p *Program, rule string) {
 				return
 			}
 			// the prefix construction on the delete branch is checked above
-			if sl, ok := strip(c.Call.Args[0]).(*ssa.Slice); ok && strip(sl.X) == ssa.Value(order) {
+			if sl, ok := strip(c.Call.Args[0]).(*ssa.Slice); ok && strip(sl.X) == order {
 				return
 			}
 			np++
